@@ -67,6 +67,14 @@ class VLoop(asyncio.BaseEventLoop):
         self.exceptions.append(context)
 
     # --- BaseEventLoop plumbing --------------------------------------
+    trace_instants = None   # set to a list to record every distinct instant at which callbacks ran
+
+    def _run_once(self):
+        super()._run_once()
+        ti = self.trace_instants
+        if ti is not None and (not ti or ti[-1] != self._vtime):
+            ti.append(self._vtime)
+
     def _process_events(self, event_list) -> None:
         pass
 
@@ -309,6 +317,7 @@ class SimNet:
         self.udp_responder: Optional[Callable] = None
         # decides accept/refuse/hang for a connect attempt; default accept if a listener exists
         self.connect_policy: Optional[Callable[[str, int, int], str]] = None
+        self.connect_latency = 0.004
 
     def listen(self, host: str, port: int, peer) -> None:
         self.listeners[(host, port)] = peer
@@ -324,12 +333,12 @@ class SimNet:
         self.connect_attempts.append((self.loop.time(), host, port, verdict))
         self.log.append((self.loop.time(), "connect", (host, port), verdict.encode()))
         if verdict == self.REFUSE:
-            await asyncio.sleep(0)
+            await asyncio.sleep(self.connect_latency)
             raise ConnectionRefusedError(111, "Connect call failed", (host, port))
         if verdict == self.HANG:
             await self.loop.create_future()  # only cancellation ends this
             raise AssertionError("unreachable")
-        await asyncio.sleep(0)
+        await asyncio.sleep(self.connect_latency)
         conn = Conn(self, len(self.conns), host, port, peer)
         self.conns.append(conn)
         protocol = protocol_factory()
